@@ -189,11 +189,6 @@ theorem C44_cache_other_key (c : List CacheEntry) (pfx id pfx' id' : String) (v 
     · simp [he]
   rw [hf]
 
-theorem find?_never {α : Type} (l : List α) : l.find? (fun _ => false) = none := by
-  induction l with
-  | nil => rfl
-  | cons a t ih => simp [List.find?_cons, ih]
-
 theorem C44_cache_deleted (c : List CacheEntry) (pfx id : String) (now : Nat) :
     cacheGet (cacheDel c (cacheKey pfx id)) pfx id now = none := by
   unfold cacheGet cacheDel
